@@ -636,7 +636,8 @@ func init() {
 	register(&vf.Check{
 		ID:        "C17",
 		Technique: "runtime monitor: callback ledger over every asynchronous WebSocket API + independent parser over the bytes the peer received, for scripts that place peer events and application calls relative to poll cycles and transport writability; scripted transport (deferred completions, unwritable periods) at scale and the real AsyncAdapter on a loopback socket obtained through a real handshake",
-		Rule: "cases = scripts of 6-40 steps: arm a read (AsyncNextFrame / AsyncNextMessage, re-armed from its own callback 3 times out of 4), start a write (AsyncWrite, AsyncWriteFrame, AsyncFlush, AsyncClose; one application write at a time), peer sends data / ping / close, the transport becomes not writable / writable again, one unit of progress (one deferred completion on the scripted transport; PollOne + peer drain on the real socket); 3 of 4 cases on the scripted transport, 1 of 4 on the real adapter after a real handshake; every script ends with a bounded quiescence; " +
+		Rule: "a third of the sessions start with a blocking Write/WriteFrame; one write in 25 carries 129-400 KB; one case in 25 is a burst of 33-150 complete frames in one transport read with the read re-armed from every handler and a silent peer afterwards; " +
+			"cases = scripts of 6-40 steps: arm a read (AsyncNextFrame / AsyncNextMessage, re-armed from its own callback 3 times out of 4), start a write (AsyncWrite, AsyncWriteFrame, AsyncFlush, AsyncClose; one application write at a time), peer sends data / ping / close, the transport becomes not writable / writable again, one unit of progress (one deferred completion on the scripted transport; PollOne + peer drain on the real socket); 3 of 4 cases on the scripted transport, 1 of 4 on the real adapter after a real handshake; every script ends with a bounded quiescence; " +
 			"non-trivial = a read and a write were in flight together at least once; distinct = (variant, overlaps, control frames handled during a write, shape)",
 		Assumptions: []string{
 			"one application read and one application write in flight, as the statement says, plus an AsyncClose that may join them; automatic Pong/Close replies are flushed by the read path concurrently",
